@@ -9,6 +9,7 @@ from .fam_tx import Tx
 from .fam_proxy import Fsrv, Proxy, Psess
 from .fam_dmn import Dmn
 from .fam_shut import Shut
+from .fam_kern import Kern
 
 PROPS = {}
 
@@ -139,6 +140,16 @@ SHUT_TB = ["hand model Model/Shutdown.v of lib.rs (daemon thread loop, ShutdownH
            "Spec/ShutSpec.v: my transcription of C16 outcomes", "socket shutdown(2)/EPIPE semantics of AF_UNIX stream sockets (kernel)"]
 reg(id="C16", props="Props/C16.v", proof_files=["Proofs/ShutBase.v", "Proofs/ShutProofs.v"], families=[Shut()], rule=SHUT_RULE, trusted_base=SHUT_TB,
     assumptions=["a blocked recvmsg returns 0 after shutdown(SHUT_RDWR) on the same socket; sendmsg on it fails with EPIPE", "thread join returns the thread's result"])
+KERN_RULE = ("family kern: every trait operation of Vsock, Net and VhostKernVdpa on a dummy descriptor with ioctl (and open of /dev/vhost-*) interposed in the "
+             "harness binary: queue indexes up to 2^32+, 64-bit boundary values, region tables of 0..300 entries, config buffers of 0..256 bytes, IOTLB map/unmap "
+             "under every acknowledged-feature selection of v1/v2, valid and invalid ring configurations over a two-region guest memory; the interposer records "
+             "(request, argument bytes) and writes a pattern back; host addresses are mapped back to guest addresses by the harness's own knowledge of the mapping; "
+             "compared with Spec/KernSpec.v, whose numbers and offsets come from the installed UAPI headers through the C compiler")
+KERN_TB = ["tools/uapi_gen.py + cc + /usr/include/linux/vhost.h, vhost_types.h (the UAPI side of every equality)", "rs2v kern.rs (macro arguments, struct fields, requests per operation body)",
+           "Base/CLayout.v: System V x86-64 struct layout rules", "Spec/KernSpec.v: my transcription of the operation -> request assignment and of the argument contents",
+           "the harness's ioctl/open64 interposition (symbols defined in the executable take precedence over libc)"]
+reg(id="C19", props="Props/C19.v", proof_files=["Proofs/KernProofs.v"], families=[Kern()], rule=KERN_RULE, trusted_base=KERN_TB,
+    assumptions=["the C compiler's sizeof/offsetof and macro expansion are the kernel ABI"])
 reg(id="BE-DEV",
     props="Props/C20.v",
     families=[Be()],
